@@ -13,7 +13,10 @@ using vt::Ev;
 
 static const uint64_t MAXT = 0x7fffffffffffffffULL;
 
-template<class S> static std::string proj(const S& s) {
+// reference seed hash: low 16 bits of MurmurHash3_x64_128 of the 8 seed bytes with seed 0
+static long long ref_seed_hash(uint64_t seed) { return (long long)(refhash::murmur3_x64_128(&seed, 8, 0).h1 & 0xffff); }
+
+template<class S> static std::string proj(const S& s, uint64_t seed) {
   std::vector<uint64_t> ent;
   for (auto it = s.begin(); it != s.end(); ++it) ent.push_back(*it);
   Ev r("x");
@@ -25,6 +28,7 @@ template<class S> static std::string proj(const S& s) {
   std::vector<double> lb, ub;
   for (int k = 1; k <= 3; k++) { lb.push_back(s.get_lower_bound(k)); ub.push_back(s.get_upper_bound(k)); }
   r.dl("lb", lb).dl("ub", ub);
+  r.i("seedHash", s.get_seed_hash()).i("xSeedHash", ref_seed_hash(seed));
   r.s += "}";
   return r.s;
 }
@@ -112,15 +116,26 @@ int main(int argc, char** argv) {
     std::unique_ptr<update_theta_sketch> sk[NS];
     std::unique_ptr<compact_theta_sketch> cv[NC];
     std::vector<uint8_t> blob[NB]; bool blobc[NB] = {false,false,false,false}; bool blive[NB] = {false,false,false,false};
-    uint64_t hseed[NS];
+    uint64_t hseed[NS], cseed[NC], bseed[NB];
     uint8_t lgk = (uint8_t)std::min(g.range(5, maxlgk), g.range(5, maxlgk));
     uint64_t sd = g.chance(25) ? g.next() % 100000 + 1 : DEFAULT_SEED;
     long wide = (1L << lgk) * (long)g.range(1, 6);
+    const uint64_t sd2 = sd * 0x9E3779B97F4A7C15ULL + 12345;   // some sketches of a segment use another seed
     auto mk = [&](int i) {
       float p = PS[g.below(5)];
       auto rf = (resize_factor)g.below(4);
-      sk[i].reset(new update_theta_sketch(update_theta_sketch::builder().set_lg_k(lgk).set_resize_factor(rf).set_p(p).set_seed(sd).build()));
-      hseed[i] = sd;
+      const uint64_t myseed = g.chance(25) ? sd2 : sd;
+      auto b = update_theta_sketch::builder();
+      b.set_lg_k(lgk).set_resize_factor(rf).set_p(p).set_seed(myseed);
+      if (g.chance(30)) {
+        // a REFUSED setter must leave the builder as it was
+        int refused = 0;
+        try { b.set_lg_k(g.chance(50) ? 4 : 27); } catch (const std::invalid_argument&) { refused++; }
+        try { b.set_p(g.chance(50) ? 0.0f : 1.5f); } catch (const std::invalid_argument&) { refused++; }
+        Ev("BuilderRefusal").i("refused", refused).i("of", 2).emit();
+      }
+      sk[i].reset(new update_theta_sketch(b.build()));
+      hseed[i] = myseed;
       uint64_t startH = p < 1 ? (uint64_t)((double)MAXT * p) : MAXT;
       Ev("New").i("id", i).i("k", 1L << lgk).i("lgk", lgk).i("rf", (int)rf).h("startH", startH).h("maxH", MAXT).emit();
     };
@@ -147,18 +162,18 @@ int main(int argc, char** argv) {
           Ev("Reset").i("id", i).h("thetaH", s.get_theta64()).i("n", s.get_num_retained()).b("empty", s.is_empty()).emit();
         }
       } else if (op < 100 - 5 - 2 * serde_pct) {
-        Ev("Obs").i("id", i).raw("r", proj(s)).emit();
+        Ev("Obs").i("id", i).raw("r", proj(s, hseed[i])).emit();
       } else if (op < 100 - 3 - 2 * serde_pct) {
         int j = (int)g.below(NS);
         if (j != i) {
           if (sk[j] && g.chance(50)) *sk[j] = s; else sk[j].reset(new update_theta_sketch(s));
           hseed[j] = hseed[i];
-          Ev("Copy").i("src", i).i("dst", j).raw("r", proj(*sk[j])).emit();
+          Ev("Copy").i("src", i).i("dst", j).raw("r", proj(*sk[j], hseed[j])).emit();
         }
       } else if (op < 100 - 2 * serde_pct) {
         int c = (int)g.below(NC); bool ord = g.chance(50);
-        cv[c].reset(new compact_theta_sketch(s.compact(ord)));
-        Ev("Compact").i("src", i).i("dst", c).b("ordered", ord).raw("r", proj(*cv[c])).emit();
+        cv[c].reset(new compact_theta_sketch(s.compact(ord))); cseed[c] = hseed[i];
+        Ev("Compact").i("src", i).i("dst", c).b("ordered", ord).raw("r", proj(*cv[c], cseed[c])).emit();
       } else if (op < 100 - serde_pct) {
         int c = (int)g.below(NC); int b = (int)g.below(NB);
         if (cv[c]) {
@@ -168,7 +183,7 @@ int main(int argc, char** argv) {
           auto bytes = comp ? cv[c]->serialize_compressed(hdr) : cv[c]->serialize(hdr);
           std::ostringstream os; if (comp) cv[c]->serialize_compressed(os); else cv[c]->serialize(os);
           std::string st = os.str();
-          blob[b].assign(bytes.begin() + hdr, bytes.end()); blobc[b] = comp; blive[b] = true;
+          blob[b].assign(bytes.begin() + hdr, bytes.end()); blobc[b] = comp; blive[b] = true; bseed[b] = cseed[c];
           Ev("Ser").i("src", c).i("blob", b).b("compressed", comp).i("hdr", hdr).i("total", (long long)bytes.size())
             .i("size", (long long)blob[b].size()).i("advertised", (long long)cv[c]->get_serialized_size_bytes(comp))
             .i("maxsize", (long long)compact_theta_sketch::get_max_serialized_size_bytes(lgk))
@@ -179,28 +194,34 @@ int main(int argc, char** argv) {
         if (blive[b]) {
           int path = (int)g.below(3);
           if (path == 0) {
-            cv[c].reset(new compact_theta_sketch(compact_theta_sketch::deserialize(blob[b].data(), blob[b].size(), sd)));
+            cv[c].reset(new compact_theta_sketch(compact_theta_sketch::deserialize(blob[b].data(), blob[b].size(), bseed[b]))); cseed[c] = bseed[b];
             auto re = blobc[b] ? cv[c]->serialize_compressed() : cv[c]->serialize();
             Ev("Deser").i("blob", b).i("dst", c).str("path", "bytes").i("consumed", (long long)blob[b].size())
-              .bytes("reimg", re.data(), re.size()).raw("r", proj(*cv[c])).emit();
+              .bytes("reimg", re.data(), re.size()).raw("r", proj(*cv[c], cseed[c])).emit();
           } else if (path == 1) {
             std::string in((const char*)blob[b].data(), blob[b].size()); in += std::string(16, '\x5a');
             std::istringstream is(in);
-            cv[c].reset(new compact_theta_sketch(compact_theta_sketch::deserialize(is, sd)));
+            cv[c].reset(new compact_theta_sketch(compact_theta_sketch::deserialize(is, bseed[b]))); cseed[c] = bseed[b];
             long long consumed = (long long)is.tellg();
             auto re = blobc[b] ? cv[c]->serialize_compressed() : cv[c]->serialize();
             Ev("Deser").i("blob", b).i("dst", c).str("path", "stream").i("consumed", consumed)
-              .bytes("reimg", re.data(), re.size()).raw("r", proj(*cv[c])).emit();
+              .bytes("reimg", re.data(), re.size()).raw("r", proj(*cv[c], cseed[c])).emit();
           } else {
-            auto w = wrapped_compact_theta_sketch::wrap(blob[b].data(), blob[b].size(), sd);
+            auto w = wrapped_compact_theta_sketch::wrap(blob[b].data(), blob[b].size(), bseed[b]);
             // a compact copy of the wrapped view, to continue with
-            cv[c].reset(new compact_theta_sketch(w, w.is_ordered()));
-            Ev("Wrap").i("blob", b).i("dst", c).raw("r", proj(w)).raw("r2", proj(*cv[c])).emit();
+            cv[c].reset(new compact_theta_sketch(w, w.is_ordered())); cseed[c] = bseed[b];
+            Ev("Wrap").i("blob", b).i("dst", c).raw("r", proj(w, bseed[b])).raw("r2", proj(*cv[c], cseed[c])).emit();
+            // the image is refused with any other seed
+            bool refused = false;
+            uint64_t other = bseed[b] + 1; while (ref_seed_hash(other) == ref_seed_hash(bseed[b])) other++;
+            try { auto w2 = wrapped_compact_theta_sketch::wrap(blob[b].data(), blob[b].size(), other); (void)w2; refused = w.is_empty(); }
+            catch (const std::invalid_argument&) { refused = true; }
+            Ev("SeedMismatch").b("refused", refused).emit();
           }
         }
       }
     }
-    for (int i = 0; i < NS; i++) if (sk[i]) Ev("Obs").i("id", i).raw("r", proj(*sk[i])).emit();
+    for (int i = 0; i < NS; i++) if (sk[i]) Ev("Obs").i("id", i).raw("r", proj(*sk[i], hseed[i])).emit();
   }
   if (vt::argl(argc, argv, "--widths", 1)) {
     // every packing width of the compressed form on both paths: an ordered exact compact sketch whose entries are
@@ -230,7 +251,7 @@ int main(int argc, char** argv) {
       if (h >= MAXT) continue;
       const int c = w % NC, b = w % NB;
       cv[c].reset(new compact_theta_sketch(compact_theta_sketch::deserialize(img.data(), img.size())));
-      Ev("Inject").i("dst", c).i("w", w).h("thetaH", MAXT).h("maxH", MAXT).b("empty", false).hl("ent", ent).raw("r", proj(*cv[c])).emit();
+      Ev("Inject").i("dst", c).i("w", w).h("thetaH", MAXT).h("maxH", MAXT).b("empty", false).hl("ent", ent).raw("r", proj(*cv[c], DEFAULT_SEED)).emit();
       auto bytes = cv[c]->serialize_compressed();
       std::ostringstream os; cv[c]->serialize_compressed(os); std::string st = os.str();
       Ev("Ser").i("src", c).i("blob", b).i("w", w).b("compressed", true).i("hdr", 0).i("total", (long long)bytes.size())
@@ -247,7 +268,7 @@ int main(int argc, char** argv) {
         }
         auto re = cv[c2]->serialize_compressed();
         Ev("Deser").i("blob", b).i("dst", c2).str("path", path == 0 ? "bytes" : "stream").i("consumed", consumed)
-          .bytes("reimg", re.data(), re.size()).raw("r", proj(*cv[c2])).emit();
+          .bytes("reimg", re.data(), re.size()).raw("r", proj(*cv[c2], DEFAULT_SEED)).emit();
       }
     }
   }
